@@ -1,6 +1,6 @@
 (* Driver entry for the system model (C02, C12, C18, C03). *)
 From Coq Require Import List String Ascii Arith Bool ZArith.
-From PC Require Import Base.Sexp Comp.Syntax Comp.Compile Subst.VarSubst Sys.System Sys.Des Sys.DesSys Finish.Apply Run.RComp.
+From PC Require Import Base.Sexp Comp.Syntax Comp.Compile Subst.VarSubst Sys.System Sys.Des Sys.DesSys Sys.SysWfPil Finish.Apply Run.RComp.
 Import ListNotations.
 Local Open Scope string_scope.
 
@@ -22,7 +22,12 @@ Definition run_sys (req : sexp) : sexp :=
       match dL d_fentry files, dL dS incs, dN ctr, dL dZ args, dL d_fixed fixed with
       | Some fs, Some incs, Some ctr, Some args, Some fx =>
           match compile_top fs incs ctr base args fx with
-          | OK (lines, ctr') => sOk (Li [sN ctr'; sL s_pline lines])
+          | OK (lines, ctr') =>
+              (* the name hypothesis of the system-level C09 / C06 theorems, evaluated on the loaded object *)
+              let flags := match load_file fs incs 12 ctr base args "" "." with
+                           | OK r => [sB (names_okb 12 (fst r))]
+                           | Err _ => [] end in
+              sOk (Li [sN ctr'; sL s_pline lines; Li flags])
           | Err k => sErr k
           end
       | _, _, _, _, _ => bad_request
